@@ -157,7 +157,7 @@ Print Assumptions C17_stream_spec_example.
 (* -W cpu at the level of the stream, bounded but exhaustive: for EVERY history of at most 4 calls (both
    shapes with hooks 2 ns apart, -pg also 3 ns), the chains of 5 and 6 nested calls, and EVERY change pattern
    of the observed cpu number, the stream equals the hook-by-hook specification [wspec] - an event iff the
-   value differs from the previous hook's (first always) and fewer than MAX_EVENT events are pending, stamped
+   value differs from the previous hook's (first always) and fewer than MAX_EVENT events are pending (a change that finds the queue full is reported by the next hook with room), stamped
    -1 ns and written in front of the hook's record (the first: +1 ns, behind the first ENTRY) - and every
    event lies in the closed interval of the enclosing recorded call. *)
 Theorem C17_watch_stream_small :
@@ -173,12 +173,24 @@ Theorem C17_watch_stream_small_domain :
 Proof. exact small_domain. Qed.
 Print Assumptions C17_watch_stream_small_domain.
 
-(* the stated limit: with MAX_EVENT events pending nothing is queued - and the observation is still
-   overwritten, so that change is never reported *)
-Theorem C17_watch_limit : forall C f pos o X, full (pend X) = true -> wp_cpu C = true ->
-  pend (x_watch C f pos o X) = pend X /\ w_cpu (x_watch C f pos o X) = o_cpu o.
+(* the MAX_EVENT limit: a hook that finds the queue full queues nothing and keeps the old observations (cpu
+   number, copy of the variable, global item), so the change is reported by the next hook with a free slot *)
+Theorem C17_watch_limit : forall C f pos o X, full (pend X) = true -> w_inited X = true ->
+  pend (x_watch C f pos o X) = pend X /\ w_cpu (x_watch C f pos o X) = w_cpu X /\
+  v_copy (x_watch C f pos o X) = v_copy X /\ g_init (x_watch C f pos o X) = g_init X /\
+  g_val (x_watch C f pos o X) = g_val X.
 Proof. exact watch_limit. Qed.
 Print Assumptions C17_watch_limit.
+
+(* before the repair the cpu number was remembered although no event could be stored: the change 1 -> 2 seen
+   with a full queue was never reported (second line), now the next hook reports it (first line) *)
+Theorem C17_watch_limit_legacy_refuted :
+  let X1 := x_watch cpu_cfg (dummy_frame 100) 0 (ocpu' 2) (full_x 1) in
+  let L1 := x_watch_cpu_legacy cpu_cfg (dummy_frame 100) 0 (ocpu' 2) (full_x 1) in
+  cpu_values (map a_ev (pend (x_watch cpu_cfg (dummy_frame 110) 0 (ocpu' 2) (set_pend X1 [])))) = [2] /\
+  cpu_values (map a_ev (pend (x_watch cpu_cfg (dummy_frame 110) 0 (ocpu' 2) (set_pend L1 [])))) = [].
+Proof. exact watch_limit_legacy_refuted. Qed.
+Print Assumptions C17_watch_limit_legacy_refuted.
 
 (* -W var:NAME (a variable of 1, 2, 4 or 8 bytes), one thread: for EVERY sequence of values, with the queue drained between the hooks, the
    events generated are exactly the changes of the value w.r.t. the thread's previous observation
